@@ -47,19 +47,19 @@ Lemma for_brk_cons {A S} (body : A -> S -> ctl Empty_set S) x l s :
   for_brk (x :: l) body s = match body x s with Ret v => match v with end | Brk s' => s' | Nxt s' => for_brk l body s' end.
 Proof. unfold for_brk. cbn. destruct (body x s) as [[]| |]; reflexivity. Qed.
 
-(* a search loop: the body leaves the state alone until the first element satisfying p, where it
-   breaks with the state (g i s), i the position counted from `start` -- in terms of find_index *)
-Lemma for_brk_find {A S} (p : A -> bool) (g : Z -> S -> S) (body : Z * A -> S -> ctl Empty_set S) :
-  (forall i x s, body (i, x) s = if p x then Brk (g i s) else Nxt s) ->
+(* a search loop: the body leaves the state alone until the first element x satisfying p, where it
+   breaks with the state (g i x s), i the position counted from `start` -- in terms of find_index *)
+Lemma for_brk_find {A S} (p : A -> bool) (g : Z -> A -> S -> S) (body : Z * A -> S -> ctl Empty_set S) (d : A) :
+  (forall i x s, body (i, x) s = if p x then Brk (g i x s) else Nxt s) ->
   forall l start s,
     for_brk (enum_from start l) body s =
-    match find_index p l with Some j => g (start + Z.of_nat j) s | None => s end.
+    match find_index p l with Some j => g (start + Z.of_nat j) (nth j l d) s | None => s end.
 Proof.
   intro Hb. induction l as [|x l IH]; intros start s; [reflexivity|].
   cbn [enum_from find_index]. rewrite for_brk_cons, Hb. destruct (p x).
   - now rewrite Z.add_0_r.
   - rewrite IH. destruct (find_index p l) as [j|]; cbn [option_map]; [|reflexivity].
-    f_equal. lia.
+    cbn [nth]. f_equal. lia.
 Qed.
 
 (* two loops running in lock-step keep a relation between their states *)
@@ -429,3 +429,19 @@ Proof. destruct l as [|x r]; cbn [map zmax_list py_max]; [now rewrite item_nil|]
 
 Lemma fold_left_map {A B S} (g : S -> B -> S) (f : A -> B) l : forall s, fold_left g (map f l) s = fold_left (fun s x => g s (f x)) l s.
 Proof. induction l; intros; cbn; auto. Qed.
+
+(* ---- loops with a bound on the iterations ---- *)
+Lemma fold_opt_sim {A S T} (R : S -> T -> Prop) (f : S -> A -> option S) (g : T -> A -> T) l :
+  (forall s t x, R s t -> exists s', f s x = Some s' /\ R s' (g t x)) ->
+  forall s t, R s t -> exists s', fold_opt f l s = Some s' /\ R s' (fold_left g l t).
+Proof.
+  intro H. induction l as [|x l IH]; intros s t HR; cbn [fold_opt fold_left].
+  - eauto.
+  - destruct (H s t x HR) as (s1 & E1 & R1). rewrite E1. cbn [obind]. apply IH, R1.
+Qed.
+
+Lemma remove_at_length_eq {A B} (a : list A) (b : list B) i : length a = length b -> length (remove_at i a) = length (remove_at i b).
+Proof. intro H. unfold remove_at. rewrite !app_length, !firstn_length, !skipn_length. lia. Qed.
+
+Lemma insert_at_length_eq {A B} (a : list A) (b : list B) i x y : length a = length b -> length (insert_at i x a) = length (insert_at i y b).
+Proof. intro H. unfold insert_at. rewrite !app_length. cbn [length]. rewrite !firstn_length, !skipn_length. lia. Qed.
